@@ -175,6 +175,9 @@ class Check(CheckBase):
                 one = [(ch, o, f, t) for ch in (1, 2, 3) for o in ("L", "B") for f in lens for t in (0, 1)]
                 gens = [(c,) for c in one] + [(a, b) for a in one[::3] for b in one[::5]]
                 for cfgs in gens:
+                    if rep.viol_count >= 200:
+                        rep.notes["shard_stopped_after_200_violations"] += 1
+                        break
                     ok, klass, detail = run_case(env, width, cfgs)
                     case = {"width": width, "block": 4096, "host": host, "cfgs": [list(c) for c in cfgs]}
                     rep.case(case, ok=ok, klass="long:" + klass, nontrivial=True, detail=detail, sig="long:" + klass)
@@ -200,6 +203,10 @@ class Check(CheckBase):
                 first = tuple(shard["first"])
                 gen = ((first,) + rest for rest in itertools.product(list(stream_cfgs(fr)), repeat=k - 1))
             for cfgs in gen:
+                if rep.viol_count >= 200:
+                    # the shard's verdict is decided; code that keeps state across transcoders may slow down with every case
+                    rep.notes["shard_stopped_after_200_violations"] += 1
+                    break
                 ok, klass, detail = run_case(env, width, cfgs)
                 total = sum(c[0] for c in cfgs)
                 nt = total >= 2 or len({c[1] for c in cfgs}) > 1 or len({c[2] for c in cfgs}) > 1
